@@ -21,6 +21,8 @@ def parse_prog(s):
             if not tok:
                 continue
             m = re.match(r"([a-z]+)(\d*)$", tok)
+            if m.group(1) == "sl":
+                continue   # scheduling helper of the driver
             ops.append({"op": OPS[m.group(1)], "h": int(m.group(2) or 0)})
         prog.append(ops)
     return prog
@@ -131,12 +133,25 @@ FIXED = [
     ("lk1.rd.df.ul1_un.ti.un.ti.lw.rc.lw.rc_lk2.rd.df.rd.df.ul2", 2, 2, 2),
     ("lk3.rd.df.ul3_lk1.ul1_un.ti.lw.rc.lw.rc", 3, 3, 3),                     # middle slot never used, last one in use
 ]
+# accessor released while still locked (its region ends there); the id recycled by another thread that is inside its
+# own region while the writer scans
+RELW = [
+    ("cr1.lk1.rd.df.rl1_un.ti.lw.rc.lw.rc", 2, 1, 0),
+    ("cr1.lk1.rl1_cr2.lk2.rd.sl5.df.ul2.rl2_sl1.un.ti.lw.rc.lw.rc", 2, 2, 0),
+    ("cr1.lk1.rd.rl1.cr1.lk1.rd.df.ul1.rl1_sl2.un.ti.lw.rc", 2, 1, 0),
+    ("lk1.rd.df.rl1_cr3.lk3.rd.sl5.df.ul3_lk2.ul2.rl2_un.ti.lw.rc.sl3.un.ti.lw.rc", 3, 3, 2),
+]
+# explored much harder when the code no longer follows the L2 specification
+STRESS = [RELW[1], RELW[3],
+          ("cr1.lk1.rd.df.ul1.rl1_cr2.lk2.rd.sl4.df.ul2.rl2_un.ti.lw.rc.un.ti.lw.rc", 2, 2, 0),
+          ("lk0.lk0.rd.ul0.sl3.df.ul0_lk0.rd.df.ul0_un.ti.lw.rc.lw.rc", 2, 0, 0)]
 PB = [
     ("lk0.rd.df.ul0_un.ti.lw.rc", 1, 0, 0),
     ("lk1.rd.df.ul1_un.ti.lw.rc", 1, 1, 1),
     ("lk1.lk1.rd.ul1.df.ul1_un.ti.lw.rc", 1, 1, 1),
     ("lk2.rd.df.ul2_un.ti.lw.rc", 2, 2, 2),
     ("cr1.lk1.rd.df.ul1.rl1_un.ti.lw.rc", 1, 1, 0),
+    RELW[1],
 ]
 
 
@@ -168,6 +183,8 @@ def gen_program(rng):
                     ops.append("rl%d.cr%d" % (h, h))
             if rng.random() < 0.5:
                 ops.append("rl%d" % h)
+            elif rng.random() < 0.3:
+                ops.append("lk%d.rd.df.rl%d" % (h, h))   # dropped inside its region
             threads.append(".".join(ops))
     w = []
     for _ in range(rng.choice([1, 2, 2, 3])):
